@@ -292,3 +292,29 @@ def c04(ctx, api):
                       'the same enumeration (TLC prints only the texts that are not plain syntax errors); a case is non-trivial '
                       'when that outcome is a single accept/one-category verdict',
                       extra={'model_checks': ['RenderLexRoundTrip', 'BlanksBetweenTokensNeutral']})
+
+
+# --------------------------------------------------------------------- C05
+@plan('C05')
+def c05(ctx, api):
+    acc = Acc()
+    thorough = ctx['tier'] == 'thorough'
+    # the oracle is checked before it is trusted
+    st, text = api['run_tlc_only'](ctx, 'dec-laws', 'DecimalLaws',
+                                   'SPECIFICATION Spec\nCONSTANTS\n  R = %d\nINVARIANTS\n  SmallLaws\nCHECK_DEADLOCK FALSE\n'
+                                   % (60 if thorough else 30), timeout=1500)
+    if st['errors'] or st['rc'] != 0:
+        raise api['Broken']('Decimal.tla disagrees with TLC integer arithmetic: %s' % st['errors'][:3])
+    acc.add('DecimalLaws: Decimal.tla = TLC integer arithmetic on all pairs of small scaled integers', st, None)
+    if thorough:
+        st, text = api['run_tlc_only'](ctx, 'dec-laws-big', 'DecimalLawsBig',
+                                       'SPECIFICATION Spec\nINVARIANTS\n  BigLaws\nCHECK_DEADLOCK FALSE\n', timeout=2400)
+        if st['errors'] or st['rc'] != 0:
+            raise api['Broken']('algebraic laws fail on Decimal.tla: %s' % st['errors'][:3])
+        acc.add('DecimalLawsBig: algebraic laws on 34-digit operands', st, None)
+    st, summ = api['run_tlc_to_harness'](ctx, 'arith', 'GenArith',
+                                         cfg(constants={'Emit': 'TRUE', 'Prop': '"C05"', 'Big': tb(thorough)}), timeout=3000)
+    acc.add('GenArith: all ordered pairs of the operand pool x 12 binary operators (4 ways of supplying the operands) + sum, avg + unary family',
+            st, summ)
+    return acc.result(RULE_PINNED + '; results needing more than 34 digits admit exactly two values (truncation and truncation + 1 ulp) and count as unpinned',
+                      extra={'model_checks': ['SmallLaws', 'BigLaws (thorough)', 'Commutative', 'CmpAntisymmetric']})
